@@ -10,16 +10,18 @@ PROPS_FILE = 'Props/C10.v'
 MODEL_FILES = ['Locate/Locate.v', 'Locate/LocateK.v']
 K_NAME = ('K_locate (Locate.get_item / set_item / locate / eval_bt_slice / set_pos / set_whole + LocateIndex.reg_get_loc, element type Z, run by vm_compute, vs '
           'VectorContainer / BaseModel __getitem__ / __setitem__ / _locate_period_in_span / eval on the same span, key and operand)')
-RULE = ('exhaustive at the tier bound: every span of length 0..N (quick N=6 on VectorContainer, N=3 on BaseModel; thorough N=9 / 7) of each type '
-        '(range with non-zero origin and steps 1, 2, -1; str list; tuple; mixed hashables incl. True/1.0-style equal labels, 2.5, a pair, None; '
-        'NumPy int / str arrays; pandas Index of ints / strs; PeriodIndex Y and Q (thorough: also M); DatetimeIndex D and MS) x every label of the span plus '
-        'absent labels (same type, other type, a pair) x every (start, stop, step) over these labels, open ends and steps None,1,2,3,n,n+1 '
-        '(plus 0 and negative steps on a subset) x get and set (scalar, one-element and full-length sequence, wrong-length sequence); '
-        'pandas partial-string labels (slice-valued locations); spans with duplicate labels; positional and whole-series writes read back '
-        'through every path; names that are no variables (incl. attributes / strict) on the tuple-key read and write paths; backticked label slices through eval(); histories (the same labels looked up first on a sibling container where they '
-        'sit at other positions; on ONE object: lookups, then obj.span = <span of the same length: shifted window, reversed, other type>, then the access; a '
-        'successful slice read, reads with a missing end point, then the access). Non-trivial = span of at least 2 periods and (an exception path or at '
-        'least one element addressed); distinct by hash of the whole case.')
+RULE = ('NOT exhaustive as a whole. Enumerated completely at the tier bound: every span of length 0..N (quick N=6 on VectorContainer, N=3 on BaseModel; '
+        'thorough N=9 / 7) of each type (range with non-zero origin and steps 1, 2, -1; str list; tuple; mixed hashables incl. True/1.0-style equal '
+        'labels, 2.5, a pair, None; NumPy int / str arrays; NumPy datetime64[D] and [ns] arrays (n <= 3); a float array with a NaN label; pandas Index of '
+        'ints / strs; PeriodIndex Y and Q (thorough: also M); DatetimeIndex D and MS) x every label of the span and every absent label of its list (same '
+        'type, other type, just outside a range, a pair) for get / scalar set / locate, and x every (start, stop) pair over the labels, two absent labels '
+        'and open ends with the steps {None,2,3,n+1} for get and {None,2,n+1} for scalar set on VectorContainer at quick (thorough: {None,1,2,3,n,n+1} '
+        'for both; BaseModel at quick: {None,2,3,n+1} / {None,2}). SAMPLED with the run\'s rng: sequence operands (full-length, one-element, wrong length), '
+        'zero and negative steps, pair / partial-string slice bounds (all of them for n <= 4, 14 + 2n bound pairs above). Fixed families: spans with '
+        'repeated labels; falsy labels; numeric aliases of labels; names that are no variables; positional and whole-series writes; backticked label '
+        'slices through eval(); typed series (oracle-only); mixin subclasses; histories (sibling container with the labels at other positions; on ONE '
+        'object: lookups, then obj.span = <span of the same length>, then the access; a successful slice read, reads with a missing end point, then the '
+        'access). Non-trivial = span of at least 2 periods and (an exception path or at least one element addressed); distinct by hash of the whole case.')
 TRUSTED = ['label encoding harness/locate_common.py (Python equality of labels = structural equality of the canonical code)',
            'pandas get_loc / __contains__ answers are recorded per case and handed to the model as its oracle table; for period_range and '
            'fixed-frequency date_range spans they are ALSO compared, label by label, with the executable index model LocateIndex.reg_get_loc / '
@@ -27,9 +29,9 @@ TRUSTED = ['label encoding harness/locate_common.py (Python equality of labels =
            'both models (so pandas is modelled and compared, not assumed; text labels on Period / Datetime indexes - partial-string lookups - stay recorded oracles)']
 ASSUMPTIONS = ['operand values already have the dtype of the series in the Coq model (it moves data, it does not cast); NumPy\'s cast of a written value and its '
                'identical read-back through every path are checked by the direct oracle on int64 / <U2 / bool / float32 series (op kind typed), not by K',
-               'documented exclusions, where the property\'s text fixes no behaviour (model mirrors the code, K compares, the direct oracle is silent): spans with a '
-               'REPEATED label (list / tuple / range: first occurrence; NumPy array: KeyError although present; open stop: first occurrence of the last label) '
-               'and spans containing the label None; negative and zero steps (K pins NumPy\'s behaviour incl. ValueError for step 0 - stricter than the property)',
+               'spans with a REPEATED label: the oracle speaks on open-ended slices (kept finding open-slice|repeated-label-span), on labels that occur once and on '
+               'absent labels, and reports KeyError for a repeated label of a NumPy-array span (kept finding); excluded (position not defined by the text): a closed '
+               'bound or lookup of a label that occurs twice on list / tuple spans. Excluded: spans containing the label None; negative and zero steps (K pins NumPy\'s behaviour incl. ValueError for step 0 - stricter than the property)',
                'K is stricter than the property in two more places (a disagreement there is reported as no-failing-input-found): the identity of the stored array '
                'after element writes, and exception classes on paths the property does not constrain',
                'pandas Index.get_loc on a duplicate-free index meets locate_spec (checked on every recorded answer)',
@@ -98,7 +100,11 @@ def _make(case):
             c['X', :]
         except Exception:
             pass
-        c.span = span
+        if case.get('inplace') and isinstance(c.span, list):
+            c.span[:] = list(span)          # the SAME list object relabelled in place (nothing keyed on the span object's identity may survive)
+            span = c.span
+        else:
+            c.span = span
     # earlier READS on the same object (each may fail): a good slice, then a slice with a missing end point, ... leave no trace
     for k in case.get('pre_reads', []):
         try:
@@ -641,6 +647,8 @@ def oracle(case, obs):
         if hit:
             fails.append({'sig': SIG_DT64, 'what': 'float array span: the NaN label at position %d of the span raises KeyError' % hit[0]})
             obs = dict(obs, bylabel=[(['ret', 'scalar', obs['after'][i]] if i in hit else r) for i, r in enumerate(obs['bylabel'])])
+        if any(j == ['f', 'nan'] for j in _key_labels(case)):
+            return fails                   # a key written as a fresh NaN is not "the" label of the span (NaN has no equality): not judged
     data = [10 + i for i in range(n)]
     op = case['op']
     kind = op['kind']
@@ -648,15 +656,33 @@ def oracle(case, obs):
 
     def expect_positions(a, b, s):
         """-> ('raise', cls) | ('pos', [..]) | None (outside the property)"""
-        if any(_partial_string(case, j) for j in (a, b)):
-            return None
         if s is not None and s <= 0:
             return None
         if (a is None or b is None) and n == 0:
             return None
-        pa = 0 if a is None else _pos(labs, a)
-        pb = n - 1 if b is None else _pos(labs, b)
+
+        def bound(j, is_stop):
+            """position a bound stands for (inclusive for a stop); 'absent' -> KeyError; None -> not judged.  A text bound that pandas
+            parses (partial-string lookup on a Period / Datetime index) stands for the periods pandas itself names: the recorded
+            get_loc answer slice(i, k) covers positions i..k-1 (\"pandas already returns inclusive slices\")."""
+            if not _partial_string(case, j):
+                p = _pos(labs, j)
+                return 'absent' if p is None else p
+            rec = [r for r in obs.get('pd', []) if r[0] == j]
+            if not rec:
+                return None
+            ans = rec[0][1]
+            if ans[0] == 'slice':
+                return ans[2] - 1 if is_stop else ans[1]
+            if ans[0] == 'pos':
+                return ans[1]
+            return 'absent' if ans[0] == 'raise' else None
+        pa = 0 if a is None else bound(a, False)
+        pb = n - 1 if b is None else bound(b, True)
         if pa is None or pb is None:
+            return None
+        if pa == 'absent' or pb == 'absent':
+            # (the start is looked up first; if it is present and the stop is not, KeyError as well)
             return ('raise', 'KeyError')
         return ('pos', list(range(pa, pb + 1, s or 1)))
 
@@ -840,7 +866,7 @@ def bucket(case, obs):
 
 def shrink_candidates(case):
     op = case['op']
-    for k in ('prior', 'span0', 'pre_reads'):
+    for k in ('prior', 'span0', 'pre_reads', 'inplace'):
         if case.get(k):
             c = copy.deepcopy(case)
             del c[k]
@@ -1101,6 +1127,11 @@ def history_cases2():
                 for a, b in itertools.product([None] + labs + absent[:1], repeat=2):
                     out.append(dict(base, op={'kind': 'get', 'key': {'slice': [a, b, 2]}}))
                     out.append(dict(base, op={'kind': 'set', 'key': {'slice': [a, b, None]}, 'w': {'scalar': 99}}))
+                if span0['type'] == 'list' and spec['type'] == 'list':
+                    for j in labs + absent:          # the list span relabelled IN PLACE
+                        out.append(dict(base, inplace=True, op={'kind': 'get', 'key': {'label': j}}))
+                        out.append(dict(base, inplace=True, op={'kind': 'get', 'key': {'slice': [j, None, None]}}))
+                        out.append(dict(base, inplace=True, op={'kind': 'set', 'key': {'label': j}, 'w': {'scalar': 99}}))
     # good slice, bad slice(s), then the access
     for spec in [g[0] for g in groups]:
         labs = lc.span_labels(spec)
